@@ -141,15 +141,31 @@ pub fn load_fixture(ex: &mut Exec<'_>, name: &str) -> Result<(), String> {
             match got {
                 Err(e) => ex.report(&["C16"], "fixture_query_failed", format!("fixture {name} index {}: {e}", q.index))?,
                 Ok(res) => {
-                    let ok = res.len() == q.results.len()
-                        && res.iter().zip(&q.results).all(|((id, d), (eid, ebits))| {
-                            let e = f32::from_bits(*ebits);
-                            let close = (d - e).abs() <= 1e-5 * e.abs().max(1.0);
-                            close && (id == eid || {
-                                // ties may be ordered either way: the other id must sit at the same recorded distance
-                                q.results.iter().any(|(oid, ob)| oid == id && (f32::from_bits(*ob) - e).abs() <= 1e-5 * e.abs().max(1.0))
-                            })
-                        });
+                    // same neighbours and distances; exact ties may be ordered either way, and which of
+                    // several items tied at the cut-off is returned is unspecified
+                    let close = |a: f32, b: f32| (a - b).abs() <= 1e-5 * b.abs().max(1.0);
+                    let mut ok = res.len() == q.results.len() && res.iter().zip(&q.results).all(|((_, d), (_, eb))| close(*d, f32::from_bits(*eb)));
+                    if ok {
+                        let mut i = 0;
+                        while i < q.results.len() {
+                            let e = f32::from_bits(q.results[i].1);
+                            let mut j = i;
+                            while j < q.results.len() && close(f32::from_bits(q.results[j].1), e) {
+                                j += 1;
+                            }
+                            // a group of tied distances: same id set, unless it is the group cut by `count`
+                            if j < q.results.len() {
+                                let mut a: Vec<u32> = q.results[i..j].iter().map(|x| x.0).collect();
+                                let mut b: Vec<u32> = res[i..j].iter().map(|x| x.0).collect();
+                                a.sort_unstable();
+                                b.sort_unstable();
+                                if a != b {
+                                    ok = false;
+                                }
+                            }
+                            i = j;
+                        }
+                    }
                     if !ok {
                         ex.report(
                             &["C16"],
